@@ -9,3 +9,38 @@ Definition an_model (inp : string) : bytes := canon_analysis (analyze default_fu
 Definition an_ok (c : string * string) : bool :=
   let '(inp, exp) := c in bytes_eqb (an_model inp) (bs exp).
 Definition an_failing (cs : list (string * string)) : list N := failing_from an_ok cs 0%N.
+
+(* the language server: diagnostics are compared as sorted multisets of
+   "line.start.end.severity" (the symbol warnings come in hash order), token
+   data as the flat list of numbers; "-" = no token request was made *)
+From Abasic Require Import Model.Lsp.
+
+Fixpoint bytes_leb (a b : bytes) : bool :=
+  match a, b with
+  | [], _ => true
+  | _ :: _, [] => false
+  | x :: a', y :: b' => if (x <? y)%N then true else if (y <? x)%N then false else bytes_leb a' b'
+  end.
+
+Fixpoint split_on_aux (sep : N) (s cur : bytes) : list bytes :=
+  match s with
+  | [] => [rev cur]
+  | b :: r => if (b =? sep)%N then rev cur :: split_on_aux sep r [] else split_on_aux sep r (b :: cur)
+  end.
+Definition split_on (sep : N) (s : bytes) : list bytes :=
+  match s with [] => [] | _ => split_on_aux sep s [] end.
+
+Fixpoint insert_bytes (x : bytes) (l : list bytes) : list bytes :=
+  match l with
+  | [] => [x]
+  | y :: r => if bytes_leb x y then x :: l else y :: insert_bytes x r
+  end.
+Definition sort_bytes (l : list bytes) : list bytes := fold_right insert_bytes [] l.
+
+Definition lsp_ok (c : string * (string * string)) : bool :=
+  let '(inp, (dexp, texp)) := c in
+  let '(ds, ts) := lsp_answer default_fuel (u inp) in
+  bytes_eqb (join [59%N] (sort_bytes (map canon_diag ds)))
+            (join [59%N] (sort_bytes (split_on 59%N (bs dexp))))
+  && (bytes_eqb (bs texp) [45%N] || bytes_eqb (join [44%N] (map canon_stoken ts)) (bs texp)).
+Definition lsp_failing (cs : list (string * (string * string))) : list N := failing_from lsp_ok cs 0%N.
